@@ -4,6 +4,7 @@ Search: the property's own predicate evaluated on the REAL outputs."""
 import vf, os, json
 
 LEVEL = "proof"
+READY = True
 TARGETS = ["theories/Props/C26.vo", "theories/Extract/ExNs.vo"]
 THEOREMS = ["C26_fresh_names_never_collide", "C26_tmp_total"]
 BASES = ["a", "b", "a1", "x", "ptr", "a0", ""]
